@@ -48,7 +48,7 @@ CLAIMED = {
             "Decides: every inflate call carries max_length folding to <= 256000 and no one-shot decompress exists; on every path from the "
             "bounded call to the return of its (unsliced) result a raise of ExceededSizeError is guarded by eof or by a second pull on the same "
             "object (unconsumed_tail alone is insufficient - witness 256001 x 'a'); compression emits raw DEFLATE and the zlib-framed inflater "
-            "is chosen only for inputs starting with the zlib header; only the output of enc.decrypt is decompressed. Not decided: value-level "
+            "is chosen only for inputs starting with the zlib header; only the output of enc.decrypt is decompressed; ExceededSizeError is raised only after the bounded inflate call (never from the compressed length). Not decided: value-level "
             "round trip up to the limit (zlib reaches eof exactly at the limit: probed, trusted).",
             "zlib honours max_length and eof", "5/C17"),
     "C15": ("static analysis: CFG must-pass-through of check_header around every algorithm lookup (per iteration in recipient loops), "
@@ -76,7 +76,7 @@ CLAIMED = {
             "IV and every generated PBES2 salt are CSPRNG calls; all four generate_key paths build the key from a pyca generator / "
             "token_bytes; each generate_iv/generate_cek folds to token_bytes(required size) for all 8 enc models, GCM-KW 96 bit, salt >= 8, "
             "DEFAULT_P2C >= 1000, RSA e=65537, EC/OKP requested curve; no CSPRNG call is made at import / in a default / in a cached "
-            "function or stored on shared state; the ephemeral key is generated per recipient on its curve; `random` only selects keys. "
+            "function or stored on shared state; the ephemeral key is generated per recipient on its curve; `random` only selects keys; the header objects that receive the library-written p2s / p2c / epk / iv / tag are per-message objects (no default-argument or module-level object). "
             "Not decided: statistical distinctness (no constant, counter, cache, parameter or field can reach the sinks instead).",
             "secrets / os.urandom / pyca generators are strong sources", "5/C18"),
     "C12": ("static analysis: folded private-flag tables vs RFC, CFG structure of the as_dict filter, who-may-call rule on key-material "
@@ -93,7 +93,7 @@ CLAIMED = {
             "An exact rule catalogue, not a proof of the universal statement. Decides over the ~190 functions reachable from the consume "
             "entries: (E1) every exception class the frozen throws table assigns to an external call (303 sites) is converted by a handler or "
             "is a JoseError / ValueError subclass - incl. range-guard recognition for PBKDF2 iterations; (E2) decoded headers are checked to be "
-            "dicts before use, crit is type-checked before iteration, algorithm names are str-checked in the gates and present before lookup, "
+            "dicts before use, crit is type-checked (list of str) before iteration, algorithm names are str-checked in the gates and present before lookup, "
             "table lookups keyed by JWK / header members are membership-guarded; (E3) each of the 27 consume-reachable asserts has a "
             "machine-checked justification (required header parameter, closed class family over the folded models, field set on every "
             "constructing path, literal operations) or a named whitelist entry; (E4) check_key_type precedes verification / CEK recovery; (E5) "
